@@ -185,6 +185,7 @@ func cmdCheck(args []string) int {
 	}
 	timeoutS := 10
 	if *tier == "thorough" {
+		CrossCheck = true
 		timeoutS = 60
 	}
 	start := time.Now()
@@ -431,7 +432,7 @@ func cmdCheck(args []string) int {
 	ev.Coverage = map[string]interface{}{
 		"obligations":            len(all),
 		"discharged":             discharged,
-		"checker_cmd":            fmt.Sprintf("/verif/bin/govc check -p %s -tier %s  (per obligation: z3-new | z3 | cvc5 raced, timeout %ds)", *id, *tier, timeoutS),
+		"checker_cmd":            fmt.Sprintf("/verif/bin/govc check -p %s -tier %s  (per obligation: z3-new | z3 | cvc5, timeout %ds; quick: raced, first definite answer; thorough: all three run to their own answer and must not disagree)", *id, *tier, timeoutS),
 		"trusted_base":           trusted,
 		"functions":              funcsInfo,
 		"by_backend":             byBackend,
